@@ -269,7 +269,7 @@ def edit(args: Namespace) -> str:
         "httpseeds": args.httpseeds,
         "announce": args.announce,
         "source": args.source,
-        "private": args.private,
+        "private": args.private or None,
         "comment": args.comment,
     }
     return edit_torrent(metafile, editargs)
